@@ -5,13 +5,20 @@
 //! * `builder --tier <quick|thorough> --seed <u64> --out <path>`: generate builder cases, run them
 //!   against the real `fn_graph`, write CASE / OBS lines (see FORMAT.md).
 //! * `builder-replay --in <path> --out <path>`: re-run the `CASE B` / `CASE BP` lines of a file.
-//! * `runtime ...`: see `runtime.rs` (added separately).
+//! * `runtime --tier <quick|thorough> --seed <u64> --out <path>` and
+//!   `runtime-replay --in <path> --out <path>`: see `runtime.rs`.
 
 mod builder_case;
 mod builder_gen;
 mod payload;
 mod rng;
-// ---- hook for the `runtime` subcommand (implemented by someone else) ----
+// ---- `runtime` / `runtime-replay` subcommands (streaming APIs under a controlled executor) ----
+#[cfg(feature = "interruptible")]
+mod rt_case;
+#[cfg(feature = "interruptible")]
+mod rt_exec;
+#[cfg(feature = "interruptible")]
+mod rt_gen;
 mod runtime;
 
 use std::fs::File;
@@ -26,7 +33,8 @@ fn usage() -> i32 {
     eprintln!(
         "usage:\n  fg_harness builder --tier <quick|thorough> --seed <u64> --out <path>\n  \
          fg_harness builder-replay --in <path> --out <path>\n  \
-         fg_harness runtime ..."
+         fg_harness runtime --tier <quick|thorough> --seed <u64> --out <path>\n  \
+         fg_harness runtime-replay --in <path> --out <path>"
     );
     2
 }
@@ -270,8 +278,9 @@ fn main() {
     let code = match args.get(1).map(|s| s.as_str()) {
         Some("builder") => main_builder(&args[2..]),
         Some("builder-replay") => main_builder_replay(&args[2..]),
-        // ---- `runtime` subcommand: implemented in runtime.rs ----
+        // ---- `runtime` subcommands: implemented in runtime.rs ----
         Some("runtime") => runtime::main_runtime(&args[2..]),
+        Some("runtime-replay") => runtime::main_runtime_replay(&args[2..]),
         _ => usage(),
     };
     std::process::exit(code);
